@@ -13,6 +13,7 @@ import (
 	"encoding/xml"
 	"errors"
 	"fmt"
+	"html"
 	"math/rand"
 	"strconv"
 	"strings"
@@ -126,6 +127,82 @@ type Desc struct {
 	HelloPlace   string `json:"hello_place,omitempty"`
 	// CloseErr: the transport's Close returns an error (after closing).
 	CloseErr bool `json:"close_err,omitempty"`
+	// CapsWire, if set, is parallel to Caps: the character data of each capability element as
+	// written on the wire (which escape form is used for which character); else xmlEscape(Caps[i]).
+	CapsWire []string `json:"caps_wire,omitempty"`
+	EscForms []string `json:"esc_forms,omitempty"` // classes of escape forms used (evidence)
+}
+
+// numericRefsOnWire: also write characters as numeric character references (&#38; &#x26;) on the
+// wire. The pinned library does not resolve those (finding reported to the coordinator); off until
+// it is decided whether that is repaired or recorded, so that the baseline stays silent.
+const numericRefsOnWire = true
+
+// escPiece is a piece of capability text together with the ways it may be written as XML
+// character data; class names the escape form for the evidence.
+type escPiece struct{ text, wire, class string }
+
+var escPieces = []escPiece{
+	{"&", "&amp;", "named"}, {"<", "&lt;", "named"}, {">", "&gt;", "named"}, {">", ">", "literal"},
+	{`"`, "&quot;", "named"}, {`"`, `"`, "literal"}, {"'", "&apos;", "named"}, {"'", "'", "literal"},
+	// escaped escapes: the text itself looks like an escape
+	{"&amp;", "&amp;amp;", "escaped-named"}, {"&lt;", "&amp;lt;", "escaped-named"}, {"&gt;", "&amp;gt;", "escaped-named"},
+	{"&quot;", "&amp;quot;", "escaped-named"}, {"&apos;", "&amp;apos;", "escaped-named"}, {"&amp;amp;", "&amp;amp;amp;", "escaped-named"},
+	{"&#38;", "&amp;#38;", "escaped-numeric"}, {"&#x26;", "&amp;#x26;", "escaped-numeric"}, {"&#60;", "&amp;#60;", "escaped-numeric"},
+	{"&#x3c;", "&amp;#x3c;", "escaped-numeric"}, {"&#x3C;", "&amp;#x3C;", "escaped-numeric"}, {"&#0038;", "&amp;#0038;", "escaped-numeric"},
+	{"&#233;", "&amp;#233;", "escaped-numeric"}, {"&#;", "&amp;#;", "escaped-numeric"}, {"&#x;", "&amp;#x;", "escaped-numeric"},
+	{"&#38", "&amp;#38", "escaped-numeric"}, {"&&#38;", "&amp;&amp;#38;", "escaped-numeric"},
+}
+
+var escPiecesNumeric = []escPiece{
+	{"&", "&#38;", "numeric"}, {"&", "&#x26;", "numeric"}, {"&", "&#x0026;", "numeric"}, {"<", "&#60;", "numeric"}, {"<", "&#x3c;", "numeric"},
+	{">", "&#62;", "numeric"}, {"é", "&#233;", "numeric"}, {"é", "&#xE9;", "numeric"}, {"=", "&#61;", "numeric"},
+	{"&#38;", "&#38;#38;", "numeric"}, {"&amp;", "&#38;amp;", "numeric"},
+}
+
+// genEscCap builds one capability (text, wire) that uses escape forms in its path and its query.
+func genEscCap(r *rand.Rand, forms map[string]bool) (text, wire string) {
+	pool := escPieces
+	if numericRefsOnWire {
+		pool = append(append([]escPiece{}, escPieces...), escPiecesNumeric...)
+	}
+	var t, w strings.Builder
+	lit := func(x string) { t.WriteString(x); w.WriteString(x) }
+	pc := func() {
+		p := pool[r.Intn(len(pool))]
+		t.WriteString(p.text)
+		w.WriteString(p.wire)
+		forms[p.class] = true
+	}
+	m := randName(r, 3+r.Intn(8))
+	lit([]string{"urn:example:yang:", "http://vendor.example/ns/", "urn:ietf:params:xml:ns:yang:"}[r.Intn(3)] + m)
+	if r.Intn(3) == 0 { // an escape outside the query string
+		lit("/")
+		pc()
+		lit(randName(r, 2))
+	}
+	lit("?module=" + m)
+	for n := 1 + r.Intn(4); n > 0; n-- {
+		// the parameter separator is a literal '&', written &amp; (or, if enabled, numerically)
+		if numericRefsOnWire && r.Intn(3) == 0 {
+			p := escPiecesNumeric[r.Intn(3)]
+			t.WriteString(p.text)
+			w.WriteString(p.wire)
+			forms[p.class] = true
+		} else {
+			t.WriteString("&")
+			w.WriteString("&amp;")
+			forms["named"] = true
+		}
+		lit([]string{"revision=2020-01-0", "features=", "deviations=", "x", "#"}[r.Intn(5)])
+		for k := r.Intn(3); k > 0; k-- {
+			pc()
+			if r.Intn(2) == 0 {
+				lit(randName(r, 1+r.Intn(3)))
+			}
+		}
+	}
+	return t.String(), w.String()
 }
 
 // timedDev wraps the server model: it decides when the server's hello goes out.
@@ -326,8 +403,12 @@ func buildHello(d *Desc) string {
 		sid()
 	}
 	line(1, "<"+p+"capabilities>")
-	for _, c := range d.Caps {
-		line(2, "<"+p+"capability>"+xmlEscape(c)+"</"+p+"capability>")
+	for i, c := range d.Caps {
+		w := xmlEscape(c)
+		if len(d.CapsWire) == len(d.Caps) {
+			w = d.CapsWire[i]
+		}
+		line(2, "<"+p+"capability>"+w+"</"+p+"capability>")
 	}
 	line(1, "</"+p+"capabilities>")
 	if d.SidPos != "before" {
@@ -593,6 +674,36 @@ func gen(tier string, seed int64) []mon.Case {
 					add(d)
 				}
 			}
+		}
+	}
+	// --- capability texts in every XML escape form, escaped escapes included
+	perEsc := 8
+	if tier == "thorough" {
+		perEsc = 200
+	}
+	r4 := rand.New(rand.NewSource(seed*7919 + 99909))
+	for k := 0; k < perEsc; k++ {
+		for _, c := range cells {
+			d := GenDesc(r4, c, k%2 == 1, -1)
+			d.CapsWire = make([]string, len(d.Caps))
+			for i, x := range d.Caps {
+				d.CapsWire[i] = xmlEscape(x)
+			}
+			forms := map[string]bool{}
+			for n := 1 + r4.Intn(4); n > 0; n-- {
+				t, w := genEscCap(r4, forms)
+				at := r4.Intn(len(d.Caps) + 1)
+				d.Caps = append(d.Caps[:at], append([]string{t}, d.Caps[at:]...)...)
+				d.CapsWire = append(d.CapsWire[:at], append([]string{w}, d.CapsWire[at:]...)...)
+			}
+			for _, f := range []string{"named", "literal", "escaped-named", "escaped-numeric", "numeric"} {
+				if forms[f] {
+					d.EscForms = append(d.EscForms, f)
+				}
+			}
+			d.Amp = true
+			d.Hello = buildHello(&d)
+			add(d)
 		}
 	}
 	// --- server hello timing x echo x placement, all cells (+ no-hello); transport whose Close fails
@@ -921,6 +1032,9 @@ func RunDesc(d Desc) mon.Result {
 		})
 		defer tm.Stop()
 	}
+	for _, f := range d.EscForms {
+		tags = append(tags, "cap-escape="+f)
+	}
 	if d.CloseErr {
 		obs["close_error_sessions"] = 1
 		tags = append(tags, "transport-close-fails")
@@ -1059,7 +1173,19 @@ func RunDesc(d Desc) mon.Result {
 			for i, x := range refCaps {
 				esc[i] = xmlEscape(x)
 			}
-			if equalLists(got, esc) {
+			if len(d.CapsWire) == len(refCaps) {
+				esc = d.CapsWire
+			}
+			g, w := firstDiff(got, refCaps), firstDiff(refCaps, got)
+			switch {
+			case len(got) == len(refCaps) && !equalLists(got, esc) && fullyUnescaped(w) == fullyUnescaped(g) && len(g) < len(w):
+				bad(1, "c09/capabilities:unescaped-twice", "ServerCapabilities() resolved an escape that is part of the capability text: got %q, server advertises %q (wire form %q)", g, w, firstDiff(esc, got))
+			case len(got) == len(refCaps) && !equalLists(got, esc) && fullyUnescaped(w) == fullyUnescaped(g) && len(g) > len(w):
+				bad(1, "c09/capabilities:escape-not-resolved", "ServerCapabilities() left an escape of the wire form unresolved: got %q, server advertises %q (wire form %q)", g, w, firstDiff(esc, refCaps))
+			}
+			if len(cs) > 0 && cs[len(cs)-1].prio == 1 && strings.HasPrefix(cs[len(cs)-1].key, "c09/capabilities:") {
+				// classified above
+			} else if equalLists(got, esc) {
 				bad(5, "c09/capabilities:xml-escaped", "ServerCapabilities() reports the XML-escaped text, not the advertised URIs: e.g. got %q, server advertises %q",
 					firstDiff(got, refCaps), firstDiff(refCaps, got))
 			} else {
@@ -1067,6 +1193,14 @@ func RunDesc(d Desc) mon.Result {
 			}
 		} else {
 			obs["capabilities_compared"] = int64(len(refCaps))
+			if len(d.CapsWire) > 0 {
+				obs["escape_sessions"] = 1
+				for i := range refCaps {
+					if d.CapsWire[i] != refCaps[i] {
+						obs["escaped_capabilities_compared"]++
+					}
+				}
+			}
 		}
 		if sid := drv.SessionID(); sid != refSID {
 			k := "c09/session-id-mismatch:" + prefClass(d.Prefix)
@@ -1248,6 +1382,19 @@ func RunDesc(d Desc) mon.Result {
 	return mon.Result{Verdict: mon.Held, NonTrivial: nonTrivial, Obs: obs, Tags: tags, Sample: sample}
 }
 
+// fullyUnescaped resolves escapes until nothing changes; only used to classify a mismatch (one
+// side is the other with more / fewer escapes resolved), never to judge.
+func fullyUnescaped(s string) string {
+	for i := 0; i < 8; i++ {
+		n := html.UnescapeString(s)
+		if n == s {
+			break
+		}
+		s = n
+	}
+	return s
+}
+
 func btoi(b bool) int {
 	if b {
 		return 1
@@ -1281,7 +1428,8 @@ func init() {
 			"x echo on/off x read segmentation x read delay. Extra sessions: ServerHasCapability/ServerCapabilities/SessionID lookups on the driver before Open (both base URNs in every combination, " +
 			"capabilities of the hello, look-alikes, absent ones) and repeated lookups after Open judged against the hello sent; a one-shot transport write error at write 1, 2 (the open sequence) and 3 for every succeeding cell x echo; " +
 			"server hello sent 3/20/60 ms after open or at the client's first write, whichever is earlier, x echo on/off x placement relative to the echo (own message before it / contiguous with it / after it) for all cells; " +
-			"transport whose Close returns an error for all cells and hello-less messages. Non-trivial = prefixed element names, or the server's first message delivered in >= 2 transport reads, or a cell that must fail. " +
+			"transport whose Close returns an error for all cells and hello-less messages; " +
+			"capability texts written with the five predefined entities, literal > \" ', and escaped escapes (&amp;amp; &amp;lt; &amp;#38; &amp;#x26; ...) in query strings and paths, reference = encoding/xml character data. Non-trivial = prefixed element names, or the server's first message delivered in >= 2 transport reads, or a cell that must fail. " +
 			"Distinct = distinct descriptor hash.",
 		Assumptions: []string{
 			"the server's first message is complete, framed with the end-of-message delimiter, LF-only (no CR), and arrives without transport faults (stalls/EOF are C05/C06)",
@@ -1293,6 +1441,7 @@ func init() {
 			"write faults: exactly one transport write fails (nothing of it reaches the server), all others work; Open may then fail with any error (transport must be closed) or succeed - if it succeeds every clause of a successful open is judged, in particular exactly one client hello and nothing but returns before the first rpc",
 			"server hello timing: the server sends its hello unconditionally within 60 ms (far below the 10 s timeout); a server that withholds its hello until it has the client's is outside (the property does not say whether Open must speak first; the pinned Open reads first and would time out - C05's subject)",
 			"a transport Close that returns an error has nevertheless closed; the error identity of a failing negotiation and exactly one transport Close are judged all the same",
+			"capability escape forms judged: the five predefined entities and escaped escapes; numeric character references ON THE WIRE (&#38;, &#x26;) are generated only with numericRefsOnWire (off: the pinned library leaves them unresolved - reported finding, decision pending)",
 			"trusted base: ncwire strict codec, ncsim server model, encoding/xml, the table (12 lines)",
 			"timeouts 10 s (open) / 6 s (rpc); a timeout is judged only if every needed byte had been delivered and the load canary is quiet, else inconclusive",
 		},
